@@ -269,9 +269,12 @@ class Constraint:
     def is_single_feature_constraint(self) -> bool:
         """Return true if the constraint is a single feature or its negation."""
         root_op = self._ast.root
-        return (root_op.is_term() or
-                (root_op.data == ASTOperation.NOT and
-                (root_op.left.is_term() or root_op.right.is_term())))
+        if root_op.is_term():
+            return True
+        if root_op.data != ASTOperation.NOT:
+            return False
+        operand = root_op.left if root_op.left is not None else root_op.right
+        return operand is not None and operand.is_term()
 
     def is_simple_constraint(self) -> bool:
         """Return true if the constraint is a simple constraint (requires or excludes)."""
